@@ -5,7 +5,7 @@ import os
 import z3
 from .common import Check, run_parallel, Inconclusive, VERIF
 from .spelled import *
-from .c16 import text_is
+from .c16 import text_is, zeros_decimal_matches
 from oracle.langs import LANGS
 from mirsym.strings import to_symstr
 
@@ -40,6 +40,9 @@ def spellings(L, n, digs, f, slots, side):
                 continue
             flat.extend(w.split('-') if L.code in ('en', 'fr') else [w])
         flat = [w for w in flat if w != L.conj]
+        # the silent agreement mark of French 'vingts' is not a different word ('quatre-vingts dix-neuf' are the words of 99)
+        if L.code == 'fr':
+            flat = ['vingt' if w == 'vingts' else w for w in flat]
         out.add(tuple(flat))
     return out
 
@@ -112,6 +115,10 @@ def pairs(ck, code, L):
     assm = ca + cb + list(L.side_constraints(da, fa_)) + list(L.side_constraints(db, fb_))
     # the conjunction joiner only between two non-zero numbers
     assm.append(z3.Implies(use_conj, z3.And(z3.Not(da.is_zero()), z3.Not(db.is_zero()))))
+    if ck.tier == 'quick':
+        # one speaker: both numbers use the same regional / orthographic variants (the thorough tier frees them)
+        assm += [fa_[k_] == fb_[k_] for k_ in fa_]
+        ck.outside.append('quick: the two numbers of a pair use the same spelling variants (regional tens, hyphenation, ...)')
     slots = sa + [[(use_conj, L.conj), (z3.Not(use_conj), None)]] + sb
     tslots, nwords, ne = token_slots(slots)
     ex = make_executor(ck, assm)
@@ -122,6 +129,25 @@ def pairs(ck, code, L):
 
     def is_val(dg, v):
         return z3.And(dg.D[1] == v // 10, dg.D[0] == v % 10)
+    # the fused reading as a function of (a, b): R is functional in (a, b) -- checked here -- so the allowed single number is
+    # given by three digit terms defined once (not once per path)
+    fused = {}
+    for (a, b, c) in R:
+        if fused.setdefault((a, b), c) != c:
+            raise Inconclusive('fusion table not functional at (%d, %d)' % (a, b))
+    dc = Digits(12, 'c')
+    in_R = z3.Bool('pair_has_fused_reading')
+    defs = [d == 0 for d in dc.D[3:]]
+    pair_conds = []
+    for (a, b), c in sorted(fused.items()):
+        pa = z3.And(is_val(da, a), is_val(db, b))
+        pair_conds.append(pa)
+        defs.append(z3.Implies(pa, z3.And(dc.D[2] == c // 100, dc.D[1] == (c // 10) % 10, dc.D[0] == c % 10)))
+    defs.append(in_R == (z3.Or(*pair_conds) if pair_conds else z3.BoolVal(False)))
+    defs.append(z3.Implies(z3.Not(in_R), z3.And(dc.D[2] == 0, dc.D[1] == 0, dc.D[0] == 0)))
+    defs += [z3.ULE(d, 9) for d in dc.D[:3]]
+    assm = assm + defs
+    one = z3.BitVecVal(1, 8)
     bad, oks = [], []
     for r in res:
         v = r.ret
@@ -137,11 +163,9 @@ def pairs(ck, code, L):
             # a zero after a number starts a new numeral: covered by `both` with b == 0
         if len(occ) >= 1:
             t0 = occ[0][2]
-            for (a, b, c) in R:
-                allowed.append(z3.And(n == 1, is_val(da, a), is_val(db, b), text_is(t0, str(c))))
+            allowed.append(z3.And(n == 1, in_R, decimal_matches(t0, dc)))
             # leading zero attaches to the following number; zero zero -> 00
-            for b in range(0, 100):
-                allowed.append(z3.And(n == 1, da.is_zero(), is_val(db, b), z3.Not(use_conj), text_is(t0, '0' + str(b))))
+            allowed.append(z3.And(n == 1, da.is_zero(), z3.Not(use_conj), zeros_decimal_matches(t0, one, 1, db)))
         good = z3.Or(*allowed) if allowed else z3.BoolVal(False)
         bad.append(('outcome outside {a b, fused standard number}', z3.And(pc(r), z3.Not(good))))
         oks.append(z3.And(pc(r), good))
@@ -166,18 +190,19 @@ def pairs(ck, code, L):
         if a == 0 and not conj and texts == ['0' + str(b)]:
             ok_ = True
         bw = [w for w in concrete_phrase(sb, m)]
-        flatb = []
-        for w_ in bw:
-            flatb.extend(w_.split('-') if code in ('en', 'fr') else [w_])
         units = set(x for x in (getattr(L, 'UNITS', []) or []) if x)
-        role = 'conj-then-unit-led-number' if conj and len(flatb) > 1 and flatb[0] in units else 'fusion'
+        # role of a listed finding: the second number is written as several separate words and starts with a unit word
+        # (French 'quatre vingt ...'), so a greedy left-to-right reading attaches that unit to the first number
+        role = 'unit-led-second-number' if len(bw) > 1 and bw[0] in units else 'fusion'
         return {'key': {'lang': code, 'kind': 'fusion', 'a': a, 'b': b, 'role': role}, 'reproduced': not ok_, 'replay': rep,
                 'what': '%s: %r (a=%d, b=%d) is rewritten as %r' % (code, ''.join(t.text for t in toks), a, b, texts)}
     def block(m, cex):
-        if cex['key'].get('role') == 'conj-then-unit-led-number':
-            # exclude exactly that role: the conjunction followed by a multi-word number whose first word is a unit
-            multi_unit_led = z3.Or(z3.And(db.D[1] == 8, True), db.D[1] == 9) if code == 'fr' else z3.BoolVal(False)
-            return z3.Not(z3.And(use_conj, multi_unit_led))
+        if cex['key'].get('role') == 'unit-led-second-number' and code == 'fr':
+            # exclude exactly that role: b = 80..99 in the vigesimal spelling, written with spaces
+            t = db.D[1]
+            led = z3.And(z3.Not(fb_['hy0']), z3.Or(z3.And(t == 8, z3.Not(fb_['huit']), z3.Not(fb_['oct'])),
+                                                   z3.And(t == 9, z3.Not(fb_['non']))))
+            return z3.Not(led)
         return None
     ck.prove_none('%s:pairs' % code, assm, bad, on_cex, block)
     ck.cover('%s:pairs:kept-apart' % code, assm + [z3.Or(*[z3.And(pc(r), B64(r.ret.len) == 2) for r in res])],
